@@ -109,7 +109,7 @@ for variant, dty in (("str", "is_str"), ("bytes", "is_bytes")):
         globals_={"state": "@OState"},
         callees={"hashlib.sha256": p_sha256, "DiscStorage.lookup_all": p_lookup_all, "DiscStorage.save": p_save, "external": p_external_ctor},
         requires={"kind": f"isinstance_of(data, '{'str' if variant == 'str' else 'bytes'}') and not isinstance_of(data, '{'bytes' if variant == 'str' else 'str'}')"},
-        ghost={"vars": OUT_G, "light_feasibility": False},
+        ghost={"vars": OUT_G, "light_feasibility": True},
         ensures={
             # C13: "the data behind external(name) is byte-identical to what was outsourced and its SHA-256 is the stored file name"
             "hashes-the-stored-bytes [C13]": "same(hashed, " + ("utf8(old(data))" if variant == "str" else "old(data)") + ")",
